@@ -910,8 +910,10 @@ Proof.
     destruct HR as (Rj & Rl & Rf & Re & Rx).
     destruct HW as (W1 & W2 & W3 & W4 & W5 & W6 & W7). cbn [length] in W5, W6, W7.
     destruct it as [| |c|w]; cbn [toks zpre zpre_tok trailing_kw pre_items].
-    + apply IHr; [repeat split; cbn; auto; lia|unfold WFz; cbn; repeat split; auto; lia].
-    + apply IHr; [repeat split; cbn; auto; lia|unfold WFz; cbn; repeat split; auto; lia].
+    + apply IHr; [repeat split; cbn; auto; lia|unfold WFz; cbn; repeat split; auto; try lia; discriminate].
+    + rewrite Rj. destruct (z_j z - 1 <? 0)%Z.
+      * eexists; split; [reflexivity|right; right; reflexivity].
+      * apply IHr; [repeat split; cbn; auto; lia|unfold WFz; cbn; repeat split; auto; try lia; discriminate].
     + apply IHr; [repeat split; cbn; auto; lia|unfold WFz; cbn; repeat split; auto; lia].
     + (* the ISP after a word is skipped: harmless for toks / trailing_kw *)
       assert (IHs : forall a1 z1, Rz a1 z1 -> WFz z1 (length r) ->
@@ -940,12 +942,12 @@ Proof.
                  --- unfold Rz, a_bump. cbn. repeat split; auto. rewrite inc64_z; lia.
                  --- unfold WFz. cbn. repeat split; try lia.
            ++ replace (a_fexp a =? a_f a) with (z_fexp z =? z_f z)%Z by lia.
-              destruct (z_fexp z =? z_f z)%Z; cbn [negb ibind]; [|eexists; split; [reflexivity|right; reflexivity]].
+              destruct (z_fexp z =? z_f z)%Z; cbn [negb ibind]; [|eexists; split; [reflexivity|right; left; reflexivity]].
               apply IHs.
               ** unfold Rz, a_bump. cbn. repeat split; auto; rewrite inc64_z; lia.
               ** unfold WFz. cbn. repeat split; try lia; try discriminate.
            ++ replace (a_fexp a =? a_f a) with (z_fexp z =? z_f z)%Z by lia.
-              destruct (z_fexp z =? z_f z)%Z; cbn [negb ibind]; [|eexists; split; [reflexivity|right; reflexivity]].
+              destruct (z_fexp z =? z_f z)%Z; cbn [negb ibind]; [|eexists; split; [reflexivity|right; left; reflexivity]].
               apply IHs.
               ** unfold Rz, a_bump. cbn. repeat split; auto; rewrite inc64_z; lia.
               ** unfold WFz. cbn. repeat split; try lia; try discriminate.
@@ -1272,7 +1274,7 @@ End Sim.
 
 (* ---------- backward scanning ---------- *)
 Definition back_stop (P : bytes) : Prop :=
-  P = [] \/ exists P' d, P = P' ++ [d] /\ (is_cspace d = true \/ d = 40).
+  P = [] \/ exists P' d, P = P' ++ [d] /\ (is_cspace d = true \/ d = 40 \/ d = 41).
 
 Lemma scan_back_spec w : forallb wordch w = true -> forall P R fuel,
   back_stop P -> (length w < fuel)%nat ->
@@ -1286,14 +1288,14 @@ Proof.
       replace (Z.of_nat (length P' + 1) - 1 <? 0)%Z with false by lia.
       rewrite <- app_assoc. cbn [app].
       replace (Z.of_nat (length P' + 1) - 1)%Z with (Z.of_nat (length P')) by lia.
-      rewrite rdc_hd. cbn [ibind hd]. destruct Hd as [Hd| ->]; [rewrite Hd; reflexivity|]. reflexivity.
+      rewrite rdc_hd. cbn [ibind hd]. destruct Hd as [Hd|[->| ->]]; [rewrite Hd; reflexivity|reflexivity|reflexivity].
   - rewrite forallb_app in Hw. apply andb_true_iff in Hw. destruct Hw as [Hw Hc]. cbn in Hc. rewrite andb_true_r in Hc.
     destruct (wordch_facts _ Hc) as (H0 & H40 & H41 & Hs).
     rewrite app_length in *. cbn [length] in *. cbn [scan_back].
     replace (Z.of_nat (length P + (length w + 1)) - 1 <? 0)%Z with false by lia.
     replace (P ++ (w ++ [c]) ++ R) with ((P ++ w) ++ c :: R) by (rewrite <- !app_assoc; reflexivity).
     replace (Z.of_nat (length P + (length w + 1)) - 1)%Z with (Z.of_nat (length (P ++ w))) by (rewrite app_length; lia).
-    rewrite rdc_hd. cbn [ibind hd]. rewrite Hs. replace (c =? 40) with false by lia.
+    rewrite rdc_hd. cbn [ibind hd]. rewrite Hs. replace (c =? 40) with false by lia. replace (c =? 41) with false by lia.
     rewrite <- app_assoc. rewrite app_length.
     replace (Z.of_nat (length P + length w) - 1)%Z with (Z.of_nat (length P + length w) - 1)%Z by lia.
     apply IH; auto. lia.
@@ -1360,27 +1362,19 @@ Qed.
 Lemma flatten_app a b : flatten (a ++ b) = flatten a ++ flatten b.
 Proof. unfold flatten. apply flat_map_app. Qed.
 
-Fixpoint sepn (its : list item) : Prop :=
-  match its with
-  | [] => True
-  | it :: r => (match it, r with IRP, IW _ :: _ => False | _, _ => True end) /\ sepn r
-  end.
-
 Lemma normal_app_r l1 l2 : normal (l1 ++ l2) -> normal l2.
 Proof. induction l1 as [|x l1 IH]; cbn [app]; auto. intro H. apply IH. eapply normal_tail; eauto. Qed.
-Lemma sepn_app_r l1 l2 : sepn (l1 ++ l2) -> sepn l2.
-Proof. induction l1 as [|x l1 IH]; cbn [app]; auto. intros [_ H]. auto. Qed.
 
 (* what precedes a word *)
-Lemma before_word l w r : normal (l ++ IW w :: r) -> sepn (l ++ IW w :: r) -> back_stop (flatten l).
+Lemma before_word l w r : normal (l ++ IW w :: r) -> back_stop (flatten l).
 Proof.
-  induction l as [|x l IH] using rev_ind; intros Hn Hs; [left; reflexivity|].
-  right. rewrite <- app_assoc in Hn, Hs. cbn [app] in Hn, Hs.
-  apply normal_app_r in Hn. apply sepn_app_r in Hs.
-  destruct Hn as (Hx & Hxw & _). destruct Hs as (Hs & _).
+  induction l as [|x l IH] using rev_ind; intros Hn; [left; reflexivity|].
+  right. rewrite <- app_assoc in Hn. cbn [app] in Hn.
+  apply normal_app_r in Hn.
+  destruct Hn as (Hx & Hxw & _).
   rewrite flatten_app. destruct x as [| |c|w2]; cbn [flatten flat_map item_bytes app] in *.
   - exists (flatten l), 40. auto.
-  - contradiction.
+  - exists (flatten l), 41. auto.
   - exists (flatten l), c. cbn in Hx. auto.
   - contradiction.
 Qed.
@@ -1529,16 +1523,16 @@ Lemma mrunB_single t a : mrunB E Fsz lookup [t] a = mtokB E Fsz lookup t a.
 Proof. cbn. destruct (mtokB E Fsz lookup t a); reflexivity. Qed.
 
 Lemma main_loop_items : forall its Rits c a fuel fu,
-  normal (its ++ Rits) -> sepn (its ++ Rits) -> Rm E Fsz B c a ->
+  normal (its ++ Rits) -> Rm E Fsz B c a ->
   (length its < fuel)%nat -> (length (flatten (its ++ Rits)) < fu)%nat ->
   (length (k_stk a) + length its + 4 <= B)%nat -> (length (k_stk a) + length its < fu)%nat ->
   sim_res E Fsz B (mrunB E Fsz lookup (rev (toksc its (next_is_sp Rits))) a)
     (main_loop fuel fu lookup (flatten its ++ flatten Rits) (Z.of_nat (length (flatten its)) - 1) c).
 Proof using HE HF HB.
-  induction its as [|it its IH] using rev_ind; intros Rits c a fuel fu Hn Hs R0 Hfuel Hfu HBs Hfs;
+  induction its as [|it its IH] using rev_ind; intros Rits c a fuel fu Hn R0 Hfuel Hfu HBs Hfs;
     (destruct fuel as [|fuel]; [lia|]).
   - cbn [flatten flat_map length toksc rev mrunB sim_res main_loop]. cbn. eexists; split; [reflexivity|exact R0].
-  - rewrite <- app_assoc in Hn, Hs, Hfu. cbn [app] in Hn, Hs, Hfu.
+  - rewrite <- app_assoc in Hn, Hfu. cbn [app] in Hn, Hfu.
     rewrite app_length in Hfuel, HBs, Hfs. cbn [length] in Hfuel, HBs, Hfs.
     rewrite toksc_app. cbn [next_is_sp].
     rewrite rev_app_distr, mrunB_app.
@@ -1643,7 +1637,7 @@ End MainSim2.
 Fixpoint zc (ts : list tok) (e : Z) (ln : bool) : Z * bool :=
   match ts with
   | [] => (e, ln)
-  | TLP :: r | TRP :: r => zc r e ln
+  | TLP :: r | TRP :: r => zc r e false
   | TNOT :: r => if ln then zc r (e - 1) false else zc r (e + 1) true
   | _ :: r => zc r (e + 1) false
   end.
@@ -1667,8 +1661,8 @@ Lemma zc_pos ts : forall e ln, (0 <= e)%Z -> (ln = true -> 1 <= e)%Z ->
 Proof.
   induction ts as [|t r IH]; intros e ln H1 H2; [cbn; auto|].
   destruct t; cbn [zc].
-  - apply IH; auto.
-  - apply IH; auto.
+  - apply IH; [lia|discriminate].
+  - apply IH; [lia|discriminate].
   - destruct ln.
     + specialize (H2 eq_refl). apply IH; [lia|discriminate].
     + apply IH; [lia|intros; lia].
@@ -1686,11 +1680,31 @@ Proof.
   - destruct (zpre_tok t z) as [z1|] eqn:E1; [|discriminate]. apply IH in H. destruct H as (H1 & H2 & H3).
     destruct t; cbn [zpre_tok] in E1; cbn [zc ntf tdepth].
     + inversion E1; subst; cbn in *. repeat split; auto; lia.
-    + inversion E1; subst; cbn in *. repeat split; auto; lia.
+    + destruct (z_j z - 1 <? 0)%Z; inversion E1; subst; cbn in *. repeat split; auto; lia.
     + destruct (z_ln z); inversion E1; subst; cbn in *; repeat split; auto; lia.
     + destruct (z_fexp z =? z_f z)%Z; inversion E1; subst; cbn in *; repeat split; auto; lia.
     + destruct (z_fexp z =? z_f z)%Z; inversion E1; subst; cbn in *; repeat split; auto; lia.
     + inversion E1; subst; cbn in *. repeat split; auto; lia.
+Qed.
+
+(* the pre-pass accepts only strings whose parenthesis depth never drops below zero *)
+Lemma zpre_depth ts : forall z z', zpre ts z = Some z' -> (0 <= z_j z)%Z ->
+  forall P Q, ts = P ++ Q -> (0 <= z_j z + tdepth P)%Z.
+Proof.
+  induction ts as [|t r IH]; intros z z' H Hj P Q HT.
+  - destruct P; [cbn; lia|discriminate].
+  - destruct P as [|t' P]; [cbn; lia|]. cbn [app] in HT. inversion HT; subst. cbn in H.
+    destruct (zpre_tok t' z) as [z1|] eqn:E1; [|discriminate].
+    assert (Hz1 : (0 <= z_j z1)%Z /\ z_j z1 = (z_j z + tdepth [t'])%Z).
+    { destruct t'; cbn [zpre_tok] in E1; cbn [tdepth].
+      - inversion E1; subst; cbn; lia.
+      - destruct (z_j z - 1 <? 0)%Z eqn:Ej; inversion E1; subst; cbn; lia.
+      - destruct (z_ln z); inversion E1; subst; cbn; lia.
+      - destruct (z_fexp z =? z_f z)%Z; inversion E1; subst; cbn; lia.
+      - destruct (z_fexp z =? z_f z)%Z; inversion E1; subst; cbn; lia.
+      - inversion E1; subst; cbn; lia. }
+    destruct Hz1 as [Hz1 Hz2]. specialize (IH z1 z' H Hz1 P Q eq_refl).
+    change (t' :: P) with ([t'] ++ P). rewrite tdepth_app. lia.
 Qed.
 
 Definition nrp (stk : list N) : nat := length (filter (fun op => negb (op =? IFF_RP)) stk).
@@ -1728,7 +1742,6 @@ Proof. unfold crp. cbn [filter]. destruct (op =? IFF_RP); reflexivity. Qed.
 
 Section NoOob.
 Variables (T : list tok) (E Fsz : nat) (lookup : bytes -> option bytes).
-Hypothesis HT_not : forall P p Q, T = P ++ p :: TNOT :: Q -> (p = TLP \/ p = TRP) -> snd (zc (P ++ [p]) 0 false) = false.
 Hypothesis HT_depth : forall P Q, T = P ++ Q -> (0 <= tdepth P)%Z.
 Hypothesis HT_E : Z.of_nat E = fst (zc T 0 false).
 Hypothesis HT_F : Fsz = ntf T.
@@ -1743,7 +1756,7 @@ Record Inv (P Q : list tok) (a : ast) : Prop := {
 }.
 
 Lemma inv_out_bound P Q a : Inv P Q a -> (length (k_out a) <= E)%nat /\ (length (k_fts a) <= Fsz)%nat.
-Proof using HT_not HT_depth HT_E HT_F lookup.
+Proof using HT_depth HT_E HT_F lookup.
   intros [He _ Hf]. split; [|lia].
   destruct (zc_pos P 0 false ltac:(lia) ltac:(discriminate)) as [H1 H2].
   unfold delta in He. destruct (snd (zc P 0 false)) eqn:Eln; cbn [andb] in He; [|lia].
@@ -1762,7 +1775,7 @@ Lemma inv_step P t Q a :
   | MErr => True
   | MOob => False
   end.
-Proof using HT_not HT_depth HT_E HT_F lookup.
+Proof using HT_depth HT_E HT_F lookup.
   intros HT HI.
   assert (Hok : forall a', mtok lookup t a = MOk a' -> Inv P (t :: Q) a' ->
             match mtokB E Fsz lookup t a with MOk a' => Inv P (t :: Q) a' | MErr => True | MOob => False end).
@@ -1775,12 +1788,7 @@ Proof using HT_not HT_depth HT_E HT_F lookup.
   destruct a as [stk out fts]. cbn [k_stk k_out k_fts] in *.
   destruct t.
   - (* ( *)
-    cbn [zc tdepth ntf fst snd] in *.
-    assert (Hln : ln' && is_tnot_hd Q = false).
-    { destruct Q as [|[] Q']; cbn [is_tnot_hd]; rewrite ?andb_false_r; auto.
-      rewrite <- app_assoc in HT. cbn [app] in HT.
-      pose proof (HT_not P TLP Q' HT (or_introl eq_refl)) as Hx. rewrite zc_app, Ezc in Hx. cbn in Hx. rewrite Hx. reflexivity. }
-    rewrite Hln in He. cbn [andb] in He.
+    cbn [zc tdepth ntf fst snd andb] in *.
     pose proof (popr_counts stk out) as Hc.
     destruct (popr stk out) as [[stk' out']|] eqn:Ep.
     + apply (Hok {| k_stk := stk'; k_out := out'; k_fts := fts |}); [cbn [mtok k_stk k_out]; rewrite Ep; reflexivity|].
@@ -1788,12 +1796,7 @@ Proof using HT_not HT_depth HT_E HT_F lookup.
       constructor; unfold delta; cbn [k_stk k_out k_fts]; rewrite ?Ezc; cbn [fst snd is_tnot_hd]; rewrite ?andb_false_r; cbn [andb]; try lia.
     + exfalso. rewrite <- app_assoc in HT. pose proof (HT_depth P _ HT). lia.
   - (* ) *)
-    cbn [zc tdepth ntf fst snd] in *.
-    assert (Hln : ln' && is_tnot_hd Q = false).
-    { destruct Q as [|[] Q']; cbn [is_tnot_hd]; rewrite ?andb_false_r; auto.
-      rewrite <- app_assoc in HT. cbn [app] in HT.
-      pose proof (HT_not P TRP Q' HT (or_intror eq_refl)) as Hx. rewrite zc_app, Ezc in Hx. cbn in Hx. rewrite Hx. reflexivity. }
-    rewrite Hln in He. cbn [andb] in He.
+    cbn [zc tdepth ntf fst snd andb] in *.
     apply (Hok {| k_stk := IFF_RP :: stk; k_out := out; k_fts := fts |}); [reflexivity|].
     constructor; unfold delta; cbn [k_stk k_out k_fts]; rewrite ?Ezc; cbn [fst snd is_tnot_hd]; rewrite ?andb_false_r; cbn [andb];
       unfold nrp, crp in *; cbn [filter N.eqb IFF_RP Pos.eqb negb length]; try lia.
@@ -1849,7 +1852,7 @@ Lemma run_no_oob : forall P Q a, T = P ++ Q -> Inv P Q a ->
   | MErr => True
   | MOob => False
   end.
-Proof using HT_not HT_depth HT_E HT_F lookup.
+Proof using HT_depth HT_E HT_F lookup.
   induction P as [|t P IH] using rev_ind; intros Q a HT HI.
   - cbn. cbn in HT. subst Q. exact HI.
   - rewrite rev_app_distr. cbn [rev app mrunB].
@@ -1861,7 +1864,7 @@ Qed.
 Definition ast0 : ast := {| k_stk := []; k_out := []; k_fts := [] |}.
 
 Lemma inv_init : tdepth T = 0%Z -> Inv T [] ast0.
-Proof using HT_not HT_depth HT_E HT_F lookup.
+Proof using HT_depth HT_E HT_F lookup.
   intro Hb. constructor; cbn [ast0 k_stk k_out k_fts length]; unfold delta, nrp, crp; cbn [filter length is_tnot_hd andb top_not].
   - rewrite andb_false_r. lia.
   - lia.
@@ -1870,81 +1873,7 @@ Qed.
 
 End NoOob.
 
-(* ================= G. from the side conditions on bytes to the token-level hypotheses ================= *)
-Lemma not_adj_split T : forall ln e P p Q,
-  not_adj T ln = true -> T = P ++ p :: TNOT :: Q -> (p = TLP \/ p = TRP) -> snd (zc (P ++ [p]) e ln) = false.
-Proof.
-  induction T as [|t T IH]; intros ln e P p Q Hn HT Hp; [destruct P; discriminate|].
-  destruct P as [|t' P]; cbn [app] in HT; inversion HT; subst.
-  - destruct Hp as [-> | ->]; cbn [not_adj] in Hn; cbn [app zc snd]; apply andb_true_iff in Hn; destruct Hn as [Hn _];
-      destruct ln; auto; discriminate.
-  - destruct t'; cbn [not_adj] in Hn; cbn [app zc].
-    + apply andb_true_iff in Hn. destruct Hn as [_ Hn]. eapply IH; eauto.
-    + apply andb_true_iff in Hn. destruct Hn as [_ Hn]. eapply IH; eauto.
-    + destruct ln; cbn [negb] in Hn; eapply IH; eauto.
-    + eapply IH; eauto.
-    + eapply IH; eauto.
-    + eapply IH; eauto.
-Qed.
-
-Fixpoint tdok (ts : list tok) (d : N) : bool :=
-  match ts with
-  | [] => true
-  | TLP :: r => tdok r (d + 1)
-  | TRP :: r => if d =? 0 then false else tdok r (d - 1)
-  | _ :: r => tdok r d
-  end.
-
-Lemma tdok_prefix T : forall d P Q, tdok T d = true -> T = P ++ Q -> (0 <= Z.of_N d + tdepth P)%Z.
-Proof.
-  induction T as [|t T IH]; intros d P Q Hd HT.
-  - destruct P; [cbn; lia|discriminate].
-  - destruct P as [|t' P]; [cbn; lia|]. cbn [app] in HT. inversion HT; subst.
-    destruct t'; cbn [tdok] in Hd; cbn [tdepth].
-    + specialize (IH _ _ _ Hd eq_refl). lia.
-    + destruct (N.eqb_spec d 0); [discriminate|]. specialize (IH _ _ _ Hd eq_refl). lia.
-    + specialize (IH _ _ _ Hd eq_refl). lia.
-    + specialize (IH _ _ _ Hd eq_refl). lia.
-    + specialize (IH _ _ _ Hd eq_refl). lia.
-    + specialize (IH _ _ _ Hd eq_refl). lia.
-Qed.
-
-Lemma tdok_classify w b ts d : tdok (classify w b :: ts) d = tdok ts d.
-Proof.
-  unfold classify. destruct b; [|reflexivity].
-  destruct (beq_bytes w KW_NOT); [reflexivity|]. destruct (beq_bytes w KW_AND); [reflexivity|].
-  destruct (beq_bytes w KW_OR); reflexivity.
-Qed.
-
-Lemma depth_tokens s : forall d, depth_nonneg s d = tdok (toks (items s)) d.
-Proof.
-  induction s as [|c s IH]; intro d; [reflexivity|]. cbn [depth_nonneg items].
-  destruct (c =? 40); [cbn [toks tdok]; apply IH|].
-  destruct (c =? 41); [cbn [toks tdok]; rewrite IH; reflexivity|].
-  destruct (is_cspace c); [cbn [toks]; apply IH|].
-  rewrite IH. destruct (items s) as [|[| |sc|w] r]; cbn [toks]; rewrite ?tdok_classify; reflexivity.
-Qed.
-
-Lemma items_hd_word s : match items s with IW _ :: _ => match s with c :: _ => is_wordch c = true | [] => False end | _ => True end.
-Proof.
-  destruct s as [|c s]; [exact I|]. cbn [items]. unfold is_wordch.
-  destruct (c =? 40); [exact I|]. destruct (c =? 41); [exact I|]. destruct (is_cspace c); [exact I|].
-  destruct (items s) as [|[| | |] ?]; reflexivity.
-Qed.
-
-Lemma rp_sep_items s : rp_sep s = true -> sepn (items s).
-Proof.
-  induction s as [|c s IH]; intro H; [exact I|]. cbn [rp_sep] in H. apply andb_true_iff in H. destruct H as [H1 H2].
-  specialize (IH H2). cbn [items].
-  destruct (c =? 40); [cbn; auto|].
-  destruct (c =? 41).
-  - cbn [sepn]. split; [|exact IH]. pose proof (items_hd_word s) as Hh.
-    destruct (items s) as [|[| | |w] r]; auto. destruct s as [|d s']; [contradiction|]. rewrite Hh in H1. discriminate.
-  - destruct (is_cspace c); [cbn; auto|].
-    destruct (items s) as [|[| |sc|w] r]; cbn [sepn] in *; auto; try tauto.
-Qed.
-
-(* ================= H. lys_compile_iffeature never leaves its arrays (partial) ================= *)
+(* ================= G/H. lys_compile_iffeature never leaves its arrays ================= *)
 Lemma repeat_lt256 n : bytes_lt256 (repeat 0 n).
 Proof. induction n; cbn; constructor; auto. lia. Qed.
 
@@ -1961,6 +1890,7 @@ Proof.
   induction ts as [|t r IH]; intros z z' H; cbn in H; [inversion H; lia|].
   destruct (zpre_tok t z) as [z1|] eqn:E1; [|discriminate]. apply IH in H.
   destruct t; cbn [zpre_tok] in E1; try (inversion E1; subst; cbn in *; lia).
+  - destruct (z_j z - 1 <? 0)%Z; inversion E1; subst; cbn in *; lia.
   - destruct (z_ln z); inversion E1; subst; cbn in *; lia.
   - destruct (z_fexp z =? z_f z)%Z; inversion E1; subst; cbn in *; lia.
   - destruct (z_fexp z =? z_f z)%Z; inversion E1; subst; cbn in *; lia.
@@ -1972,8 +1902,8 @@ Lemma zc_ge_ntf ts : forall (e : Z) (ln : bool),
 Proof.
   induction ts as [|t r IH]; intros e ln; [cbn; lia|].
   destruct t; cbn [zc ntf].
-  - apply IH.
-  - apply IH.
+  - specialize (IH e false). destruct ln; lia.
+  - specialize (IH e false). destruct ln; lia.
   - destruct ln; [specialize (IH (e - 1)%Z false)|specialize (IH (e + 1)%Z true)]; lia.
   - specialize (IH (e + 1)%Z false). destruct ln; lia.
   - specialize (IH (e + 1)%Z false). destruct ln; lia.
@@ -1983,7 +1913,7 @@ Qed.
 Lemma zc_le ts : forall e ln, (fst (zc ts e ln) <= e + Z.of_nat (length ts))%Z.
 Proof.
   induction ts as [|t r IH]; intros e ln; [cbn; lia|].
-  destruct t; cbn [zc length]; try (specialize (IH e ln); lia); try (specialize (IH (e + 1)%Z false); lia).
+  destruct t; cbn [zc length]; try (specialize (IH e false); lia); try (specialize (IH (e + 1)%Z false); lia).
   destruct ln; [specialize (IH (e - 1)%Z false)|specialize (IH (e + 1)%Z true)]; lia.
 Qed.
 Lemma ntf_le ts : (ntf ts <= length ts)%nat.
@@ -2013,24 +1943,25 @@ Proof.
   - rewrite (dec64_z _ (Z.of_nat Fsz)). + f_equal. lia. + rewrite Z.mod_small; lia.
 Qed.
 
-Theorem compile_no_oob_partial lookup v11 s :
+(* for EVERY NUL-free string: the sizes computed by the pre-pass bound the numbers of records and of
+   features the main pass writes, the operator stack never underflows, no index leaves the string *)
+Theorem compile_no_oob lookup v11 s :
   Forall (fun c => c <> 0) s -> Bnd s ->
-  depth_nonneg s 0 = true -> not_cancel_adjacent s = true -> rp_sep s = true ->
   compile lookup v11 s <> IOob /\ compile lookup v11 s <> IErr E_FUEL /\ compile lookup v11 s <> IErr E_MEM.
 Proof.
-  intros Hnz Hb Hdepth Hnot Hsep. unfold len_ok in Hb.
+  intros Hnz Hb. unfold len_ok in Hb.
   set (its := items s). set (T := toks its).
-  pose proof (items_normal s Hnz) as Hnorm. pose proof (rp_sep_items s Hsep) as Hsepn.
-  pose proof (items_length s) as Hil. fold its in Hnorm, Hsepn, Hil.
+  pose proof (items_normal s Hnz) as Hnorm.
+  pose proof (items_length s) as Hil. fold its in Hnorm, Hil.
   unfold compile. rewrite (pre_loop_string s Hnz). fold its.
   assert (HR0 : Rz pa0 z0) by (repeat split).
   assert (HW0 : WFz z0 (length its)).
   { unfold WFz, z0, ZU. cbn [z_f z_e z_fexp z_ln z_j]. repeat split; try lia; try discriminate. }
   pose proof (pre_items_zpre _ its eq_refl pa0 z0 Hnorm HR0 HW0) as Hpre. fold T in Hpre.
   destruct (zpre T z0) as [z'|] eqn:Ez.
-  2:{ destruct Hpre as (e & -> & [-> | ->]); cbn [ibind]; repeat split; discriminate. }
+  2:{ destruct Hpre as (e & -> & [-> |[-> | ->]]); cbn [ibind]; repeat split; discriminate. }
   destruct (trailing_kw its).
-  { destruct Hpre as (e & -> & [-> | ->]); cbn [ibind]; repeat split; discriminate. }
+  { destruct Hpre as (e & -> & [-> |[-> | ->]]); cbn [ibind]; repeat split; discriminate. }
   destruct Hpre as (a' & -> & HRz & HWz). cbn [ibind p_j p_fexp p_fsize p_cv p_esize p_i mk_pre].
   destruct HRz as (Rj & Rl & Rf & Re & Rx).
   destruct (negb (a_j a' =? 0)%Z) eqn:Ej; [repeat split; discriminate|].
@@ -2063,19 +1994,17 @@ Proof.
   pose proof (init_Rm E Fsz B ltac:(unfold B; lia) HEzu HFzu HE1 HF1) as HR.
   (* the main pass *)
   pose proof (main_loop_items E Fsz B lookup HEzu HFzu HBz its [] _ ast0 (S (S (length s))) (S (S (length s)))
-                ltac:(rewrite app_nil_r; exact Hnorm) ltac:(rewrite app_nil_r; exact Hsepn) HR) as Hmain.
+                ltac:(rewrite app_nil_r; exact Hnorm) HR) as Hmain.
   cbn [flatten flat_map next_is_sp] in Hmain. rewrite !app_nil_r in Hmain.
   replace (flatten its) with s in Hmain by (symmetry; apply items_flatten).
   rewrite <- toks_toksc in Hmain. fold T in Hmain.
   specialize (Hmain ltac:(lia) ltac:(lia) ltac:(cbn; unfold B; lia) ltac:(cbn; lia)).
   (* the token machine stays within the extents *)
-  assert (HTnot : forall P p Q, T = P ++ p :: TNOT :: Q -> p = TLP \/ p = TRP -> snd (zc (P ++ [p]) 0 false) = false).
-  { intros P p Q HT Hp. eapply not_adj_split; eauto. }
   assert (HTdepth : forall P Q, T = P ++ Q -> (0 <= tdepth P)%Z).
-  { intros P Q HT. pose proof (tdok_prefix T 0 P Q) as Hx. rewrite (depth_tokens s 0) in Hdepth. specialize (Hx Hdepth HT). clear -Hx. lia. }
+  { intros P Q HT. pose proof (zpre_depth T z0 z' Ez ltac:(cbn; lia) P Q HT) as Hx. cbn [z0 z_j] in Hx. clear -Hx. lia. }
   assert (Hbal : tdepth T = 0%Z) by lia.
-  pose proof (run_no_oob T E Fsz lookup HTnot HTdepth HEz HFsz T [] ast0 ltac:(rewrite app_nil_r; reflexivity)
-                (inv_init T E Fsz lookup HTnot HTdepth HEz HFsz Hbal)) as Hrun.
+  pose proof (run_no_oob T E Fsz lookup HTdepth HEz HFsz T [] ast0 ltac:(rewrite app_nil_r; reflexivity)
+                (inv_init T E Fsz lookup HTdepth HEz HFsz Hbal)) as Hrun.
   replace (Z.of_nat (length s) - 1)%Z with (Z.of_nat (length s) - 1)%Z in Hmain by lia.
   destruct (mrunB E Fsz lookup (rev T) ast0) as [af| |]; [| |contradiction].
   2:{ cbn [sim_res] in Hmain. rewrite Hmain. cbn [ibind]. repeat split; discriminate. }
@@ -2168,21 +2097,6 @@ Qed.
 Lemma zpre_app l1 l2 z : zpre (l1 ++ l2) z = match zpre l1 z with Some z1 => zpre l2 z1 | None => None end.
 Proof. revert z; induction l1 as [|t l1 IH]; intro z; cbn; [reflexivity|]. destruct (zpre_tok t z); auto. Qed.
 
-Lemma not_adj_app l1 : forall l2 ln e, not_adj (l1 ++ l2) ln = true ->
-  not_adj l1 ln = true /\ not_adj l2 (snd (zc l1 e ln)) = true.
-Proof.
-  induction l1 as [|t l1 IH]; intros l2 ln e H; [cbn; auto|].
-  destruct t; cbn [app not_adj zc] in *.
-  - apply andb_true_iff in H. destruct H as [H1 H2]. destruct (IH _ _ e H2) as [A B]. split; [|exact B].
-    rewrite A, andb_true_r. destruct l1 as [|[] ?]; auto.
-  - apply andb_true_iff in H. destruct H as [H1 H2]. destruct (IH _ _ e H2) as [A B]. split; [|exact B].
-    rewrite A, andb_true_r. destruct l1 as [|[] ?]; auto.
-  - destruct ln; cbn [negb] in *; apply IH; auto.
-  - apply IH; auto.
-  - apply IH; auto.
-  - apply IH; auto.
-Qed.
-
 Section Grammar.
 Variable lookup : bytes -> option bytes.
 
@@ -2200,26 +2114,22 @@ Definition SY (lvl : N) (e : iexp) (ts : list tok) : Prop :=
   exists pend e',
     Forall (fun op => op <= lvl) pend /\
     (lvl = 0 -> pend = [] \/ (pend = [cNOT] /\ exists e0, e' = Not e0)) /\
-    (top_not pend = true -> is_tnot_hd ts = true) /\
     (forall env, denote env e' = denote env e) /\
     (forall a, top_gt lvl (k_stk a) ->
        exists o', mrun lookup (rev ts) a = MOk {| k_stk := pend ++ k_stk a; k_out := o'; k_fts := feats e' ++ k_fts a |}
                   /\ rev pend ++ o' = pre e' ++ k_out a) /\
-    (forall z, z_fexp z = (z_f z + 1)%Z -> not_adj ts (z_ln z) = true ->
+    (forall z, z_fexp z = (z_f z + 1)%Z -> (0 <= z_j z)%Z ->
        exists z', zpre ts z = Some z' /\ z_j z' = z_j z /\ z_ln z' = false /\
                   z_f z' = (z_f z + Z.of_nat (length (feats e')))%Z /\ z_fexp z' = z_f z' /\
                   z_e z' = (z_e z + Z.of_nat (size e') - (if z_ln z && top_not pend then 2 else 0))%Z).
 
 Lemma SY_weaken l1 l2 e ts : l1 < l2 -> SY l1 e ts -> SY l2 e ts.
 Proof.
-  intros Hl (pend & e' & H1 & H2 & H3 & H4 & H5 & H6). exists pend, e'. repeat split; auto.
+  intros Hl (pend & e' & H1 & H2 & H4 & H5 & H6). exists pend, e'. repeat split; auto.
   - eapply Forall_impl; [|exact H1]. intros; cbn in *; lia.
   - intro; lia.
   - intros a Ht. apply H5. destruct (k_stk a); cbn in *; auto; lia.
 Qed.
-
-Lemma is_tnot_hd_app l1 l2 : is_tnot_hd l1 = true -> is_tnot_hd (l1 ++ l2) = true.
-Proof. destruct l1 as [|[] ?]; cbn; auto; discriminate. Qed.
 
 Lemma der_SY lvl e ts : der lvl e ts -> SY lvl e ts.
 Proof.
@@ -2229,7 +2139,7 @@ Proof.
     + intros a Ht. cbn [rev app mrun mtok]. rewrite Hx. eexists; split; reflexivity.
     + intros z Hz Hn. cbn [zpre zpre_tok]. eexists; split; [reflexivity|]. cbn. rewrite andb_false_r. repeat split; lia.
   - (* not *)
-    destruct IH as (pend & e' & H1 & H2 & H3 & H4 & H5 & H6).
+    destruct IH as (pend & e' & H1 & H2 & H4 & H5 & H6).
     destruct (H2 eq_refl) as [-> | (-> & e0 & ->)].
     + (* pushed *)
       exists [cNOT], (Not e'). repeat split; auto.
@@ -2242,8 +2152,8 @@ Proof.
         -- cbn [rev app] in Ho. subst o'. eexists; split; reflexivity.
         -- cbn in Ht. replace (op =? cNOT) with false by (change cNOT with 0; lia).
            cbn [rev app] in Ho. subst o'. eexists; split; reflexivity.
-      * intros z Hz Hn. cbn [zpre zpre_tok not_adj] in *.
-        destruct (z_ln z) eqn:Eln; cbn [negb] in Hn.
+      * intros z Hz Hn. cbn [zpre zpre_tok] in *.
+        destruct (z_ln z) eqn:Eln.
         -- destruct (H6 {| z_j := z_j z; z_ln := false; z_f := z_f z; z_e := z_e z - 1; z_fexp := z_fexp z |} Hz Hn)
              as (z' & Hp & A & B & C & D & Ee).
            exists z'. cbn in *. repeat split; auto; lia.
@@ -2256,8 +2166,8 @@ Proof.
       * intros a Ht. cbn [rev]. rewrite mrun_app.
         destruct (H5 a Ht) as (o' & Hr & Ho). rewrite Hr. cbn [app mrun mtok k_stk k_out k_fts rev pre feats] in *.
         change (cNOT =? cNOT) with true. inversion Ho; subst. eexists; split; reflexivity.
-      * intros z Hz Hn. cbn [zpre zpre_tok not_adj] in *.
-        destruct (z_ln z) eqn:Eln; cbn [negb] in Hn.
+      * intros z Hz Hn. cbn [zpre zpre_tok] in *.
+        destruct (z_ln z) eqn:Eln.
         -- destruct (H6 {| z_j := z_j z; z_ln := false; z_f := z_f z; z_e := z_e z - 1; z_fexp := z_fexp z |} Hz Hn)
              as (z' & Hp & A & B & C & D & Ee).
            exists z'. cbn in *. repeat split; auto; lia.
@@ -2265,31 +2175,27 @@ Proof.
              as (z' & Hp & A & B & C & D & Ee).
            exists z'. cbn in *. repeat split; auto; lia.
   - (* parentheses *)
-    destruct IH as (pend & e' & H1 & H2 & H3 & H4 & H5 & H6).
+    destruct IH as (pend & e' & H1 & H2 & H4 & H5 & H6).
     exists [], e'. repeat split; auto; try (cbn; discriminate).
     + intros a Ht. cbn [rev]. rewrite rev_app_distr. cbn [rev app]. cbn [mrun mtok]. rewrite mrun_app.
       destruct (H5 {| k_stk := IFF_RP :: k_stk a; k_out := k_out a; k_fts := k_fts a |}) as (o' & Hr & Ho).
       { cbn. reflexivity. }
       rewrite Hr. cbn [mrun mtok k_stk k_out k_fts] in *.
       rewrite popr_pend by exact H1. eexists; split; [reflexivity|]. cbn. exact Ho.
-    + intros z Hz Hn. cbn [zpre zpre_tok]. cbn [not_adj] in Hn. apply andb_true_iff in Hn. destruct Hn as [Hn1 Hn2].
-      destruct (not_adj_app ts [TRP] (z_ln z) 0%Z Hn2) as [Hn3 _].
-      set (z1 := {| z_j := z_j z + 1; z_ln := z_ln z; z_f := z_f z; z_e := z_e z; z_fexp := z_fexp z |}).
-      destruct (H6 z1 Hz Hn3) as (z' & Hp & A & B & C & D & Ee).
-      rewrite zpre_app, Hp. cbn [zpre zpre_tok]. eexists; split; [reflexivity|]. cbn [z_j z_ln z_f z_e z_fexp z1] in *.
-      repeat split; auto; try lia.
-      assert (Hc : z_ln z && top_not pend = false).
-      { destruct (z_ln z) eqn:Eln; [|reflexivity]. destruct (top_not pend) eqn:Etn; [|reflexivity].
-        specialize (H3 eq_refl). destruct ts as [|[] ?]; try discriminate; cbn in Hn1; discriminate. }
-      rewrite Hc in Ee. cbn [top_not]. rewrite andb_false_r. lia.
+    + intros z Hz Hn. cbn [zpre zpre_tok].
+      set (z1 := {| z_j := z_j z + 1; z_ln := false; z_f := z_f z; z_e := z_e z; z_fexp := z_fexp z |}).
+      destruct (H6 z1 Hz ltac:(cbn; lia)) as (z' & Hp & A & B & C & D & Ee).
+      rewrite zpre_app, Hp. cbn [zpre zpre_tok]. cbn [z_j z_ln z_f z_e z_fexp z1 andb] in *.
+      replace (z_j z' - 1 <? 0)%Z with false by lia.
+      eexists; split; [reflexivity|]. cbn [z_j z_ln z_f z_e z_fexp top_not].
+      rewrite andb_false_r. repeat split; auto; lia.
   - apply (SY_weaken 0 1); [lia|exact IH].
   - (* and *)
-    destruct IHa as (pa & ea & A1 & A2 & A3 & A4 & A5 & A6).
-    destruct IHb as (pb & eb & B1 & B2 & B3 & B4 & B5 & B6).
+    destruct IHa as (pa & ea & A1 & A2 & A4 & A5 & A6).
+    destruct IHb as (pb & eb & B1 & B2 & B4 & B5 & B6).
     exists (pa ++ [cAND]), (And ea eb). repeat split.
     + apply Forall_app. split; [eapply Forall_impl; [|exact A1]; intros; cbn in *; lia|]. constructor; [reflexivity|constructor].
     + intro; lia.
-    + intro Ht. apply is_tnot_hd_app. apply A3. destruct pa; [cbn in Ht; discriminate|exact Ht].
     + intro env. cbn. rewrite A4, B4. reflexivity.
     + intros st Ht. rewrite rev_app_distr. cbn [rev]. rewrite <- app_assoc. rewrite mrun_app.
       destruct (B5 st Ht) as (ob & Hrb & Hob). rewrite Hrb. cbn [app mrun mtok k_stk k_out k_fts].
@@ -2300,22 +2206,20 @@ Proof.
       * cbn [feats]. rewrite <- !app_assoc. cbn [app]. reflexivity.
       * rewrite rev_app_distr. cbn [rev app pre]. rewrite Hoa, Hob. rewrite <- !app_assoc. reflexivity.
     + intros z Hz Hn.
-      destruct (not_adj_app ta (TAND :: tb) (z_ln z) 0%Z Hn) as [Hn1 Hn2]. cbn [not_adj] in Hn2.
-      destruct (A6 z Hz Hn1) as (z1 & Hp1 & C1 & C2 & C3 & C4 & C5).
+      destruct (A6 z Hz Hn) as (z1 & Hp1 & C1 & C2 & C3 & C4 & C5).
       rewrite zpre_app, Hp1. cbn [zpre zpre_tok]. replace (z_fexp z1 =? z_f z1)%Z with true by lia.
       set (z2 := {| z_j := z_j z1; z_ln := false; z_f := z_f z1; z_e := z_e z1 + 1; z_fexp := z_fexp z1 + 1 |}).
-      destruct (B6 z2 ltac:(cbn; lia) Hn2) as (z3 & Hp3 & D1 & D2 & D3 & D4 & D5).
+      destruct (B6 z2 ltac:(cbn; lia) ltac:(cbn; lia)) as (z3 & Hp3 & D1 & D2 & D3 & D4 & D5).
       exists z3. split; [exact Hp3|]. cbn [z2 z_j z_ln z_f z_e z_fexp andb feats size] in *.
       rewrite app_length. repeat split; auto; try lia.
       replace (top_not (pa ++ [cAND])) with (top_not pa) by (destruct pa; reflexivity). lia.
   - apply (SY_weaken 1 2); [lia|exact IH].
   - (* or *)
-    destruct IHa as (pa & ea & A1 & A2 & A3 & A4 & A5 & A6).
-    destruct IHb as (pb & eb & B1 & B2 & B3 & B4 & B5 & B6).
+    destruct IHa as (pa & ea & A1 & A2 & A4 & A5 & A6).
+    destruct IHb as (pb & eb & B1 & B2 & B4 & B5 & B6).
     exists (pa ++ [cOR]), (Or ea eb). repeat split.
     + apply Forall_app. split; [eapply Forall_impl; [|exact A1]; intros; cbn in *; lia|]. constructor; [reflexivity|constructor].
     + intro; lia.
-    + intro Ht. apply is_tnot_hd_app. apply A3. destruct pa; [cbn in Ht; discriminate|exact Ht].
     + intro env. cbn. rewrite A4, B4. reflexivity.
     + intros st Ht. rewrite rev_app_distr. cbn [rev]. rewrite <- app_assoc. rewrite mrun_app.
       destruct (B5 st Ht) as (ob & Hrb & Hob). rewrite Hrb. cbn [app mrun mtok k_stk k_out k_fts].
@@ -2326,11 +2230,10 @@ Proof.
       * cbn [feats]. rewrite <- !app_assoc. cbn [app]. reflexivity.
       * rewrite rev_app_distr. cbn [rev app pre]. rewrite Hoa, Hob. rewrite <- !app_assoc. reflexivity.
     + intros z Hz Hn.
-      destruct (not_adj_app ta (TOR :: tb) (z_ln z) 0%Z Hn) as [Hn1 Hn2]. cbn [not_adj] in Hn2.
-      destruct (A6 z Hz Hn1) as (z1 & Hp1 & C1 & C2 & C3 & C4 & C5).
+      destruct (A6 z Hz Hn) as (z1 & Hp1 & C1 & C2 & C3 & C4 & C5).
       rewrite zpre_app, Hp1. cbn [zpre zpre_tok]. replace (z_fexp z1 =? z_f z1)%Z with true by lia.
       set (z2 := {| z_j := z_j z1; z_ln := false; z_f := z_f z1; z_e := z_e z1 + 1; z_fexp := z_fexp z1 + 1 |}).
-      destruct (B6 z2 ltac:(cbn; lia) Hn2) as (z3 & Hp3 & D1 & D2 & D3 & D4 & D5).
+      destruct (B6 z2 ltac:(cbn; lia) ltac:(cbn; lia)) as (z3 & Hp3 & D1 & D2 & D3 & D4 & D5).
       exists z3. split; [exact Hp3|]. cbn [z2 z_j z_ln z_f z_e z_fexp andb feats size] in *.
       rewrite app_length. repeat split; auto; try lia.
       replace (top_not (pa ++ [cOR])) with (top_not pa) by (destruct pa; reflexivity). lia.
@@ -2378,8 +2281,6 @@ Proof.
   induction w as [|c w IH]; intros Hw Hl; [exact Hl|]. cbn [forallb] in Hw. apply andb_true_iff in Hw. destruct Hw as [Hc Hw].
   cbn [sps map app normal item_ok]. repeat split; auto.
 Qed.
-Lemma sepn_sps w l : sepn l -> sepn (sps w ++ l).
-Proof. induction w as [|c w IH]; intro Hl; [exact Hl|]. cbn [sps map app sepn]. split; auto. Qed.
 Lemma toksc_sps w l nxt : toksc (sps w ++ l) nxt = toksc l nxt.
 Proof. induction w as [|c w IH]; [reflexivity|]. cbn [sps map app toksc]. exact IH. Qed.
 Lemma all_sp_app_r l1 l2 : all_sp l2 = false -> all_sp (l1 ++ l2) = false.
@@ -2396,22 +2297,10 @@ Proof.
   cbn [app]. destruct H1 as (Hx & Hb & Hr). cbn [normal]. repeat split; auto.
   destruct l1 as [|y l1]; cbn [app]; [destruct x; exact I|exact Hb].
 Qed.
-Lemma sepn_app_sp l1 c l2 : sepn l1 -> sepn (ISP c :: l2) -> sepn (l1 ++ ISP c :: l2).
-Proof.
-  induction l1 as [|x l1 IH]; intros H1 H2; [exact H2|].
-  cbn [app]. destruct H1 as (Hb & Hr). cbn [sepn]. split; auto.
-  destruct l1 as [|y l1]; cbn [app]; [destruct x; exact I|exact Hb].
-Qed.
 Lemma normal_app_rp l : normal l -> normal (l ++ [IRP]).
 Proof.
   induction l as [|x l IH]; intro H; [cbn; auto|].
   cbn [app]. destruct H as (Hx & Hb & Hr). cbn [normal]. repeat split; auto.
-  destruct l as [|y l]; cbn [app]; [destruct x; exact I|exact Hb].
-Qed.
-Lemma sepn_app_rp l : sepn l -> sepn (l ++ [IRP]).
-Proof.
-  induction l as [|x l IH]; intro H; [cbn; auto|].
-  cbn [app]. destruct H as (Hb & Hr). cbn [sepn]. split; auto.
   destruct l as [|y l]; cbn [app]; [destruct x; exact I|exact Hb].
 Qed.
 
@@ -2428,32 +2317,29 @@ Variable lookup : bytes -> option bytes.
 
 Definition G (lvl : N) (e : iexp) (r : bytes) : Prop :=
   (forall x, In x (feats e) -> lookup x = Some x) ->
-  exists its tk, flatten its = r /\ normal its /\ sepn its /\ all_sp its = false /\ trailing_kw its = false /\
+  exists its tk, flatten its = r /\ normal its /\ all_sp its = false /\ trailing_kw its = false /\
     (forall nxt, toksc its nxt = tk) /\ der lookup lvl e tk.
 
 (* left ++ sep ++ keyword ++ sep ++ right *)
 Lemma G_binop kw t ia ib tka tkb w1 w2 :
   (kw = KW_AND /\ t = TAND) \/ (kw = KW_OR /\ t = TOR) ->
   is_sep w1 -> is_sep w2 ->
-  normal ia -> sepn ia -> (forall nxt, toksc ia nxt = tka) ->
-  normal ib -> sepn ib -> all_sp ib = false -> trailing_kw ib = false -> (forall nxt, toksc ib nxt = tkb) ->
+  normal ia -> (forall nxt, toksc ia nxt = tka) ->
+  normal ib -> all_sp ib = false -> trailing_kw ib = false -> (forall nxt, toksc ib nxt = tkb) ->
   let its := ia ++ sps w1 ++ IW kw :: sps w2 ++ ib in
-  flatten its = flatten ia ++ w1 ++ kw ++ w2 ++ flatten ib /\ normal its /\ sepn its /\ all_sp its = false /\
+  flatten its = flatten ia ++ w1 ++ kw ++ w2 ++ flatten ib /\ normal its /\ all_sp its = false /\
   trailing_kw its = false /\ (forall nxt, toksc its nxt = tka ++ t :: tkb).
 Proof.
-  intros Hkw Hs1 Hs2 Hna Hsa Hta Hnb Hsb Hab Htb Htkb its.
+  intros Hkw Hs1 Hs2 Hna Hta Hnb Hab Htb Htkb its.
   destruct (sep_cons _ Hs1) as (c1 & v1 & -> & Hc1 & Hv1).
   destruct (sep_cons _ Hs2) as (c2 & v2 & -> & Hc2 & Hv2).
   assert (Hik : item_ok (IW kw)) by (apply kw_item_ok; destruct Hkw as [[-> _]|[-> _]]; auto).
   assert (Hn2 : normal (IW kw :: sps (c2 :: v2) ++ ib)).
   { cbn [sps map app normal]. refine (conj Hik (conj I (conj Hc2 (conj I _)))). apply normal_sps; auto. }
-  assert (Hs2' : sepn (IW kw :: sps (c2 :: v2) ++ ib)).
-  { cbn [sps map app sepn]. refine (conj I (conj I _)). apply sepn_sps; auto. }
   unfold its. repeat split.
   - rewrite flatten_app, flatten_sps. cbn [flatten flat_map item_bytes]. fold (flatten (sps (c2 :: v2) ++ ib)).
     rewrite flatten_sps. reflexivity.
   - cbn [sps map app]. apply normal_app_sp; auto. cbn [normal]. refine (conj Hc1 (conj I _)). apply normal_sps; auto.
-  - cbn [sps map app]. apply sepn_app_sp; auto. cbn [sepn]. refine (conj I _). apply sepn_sps; auto.
   - apply all_sp_app_r. apply all_sp_app_r. reflexivity.
   - rewrite trailing_kw_app by (apply all_sp_app_r; reflexivity).
     rewrite trailing_kw_app by reflexivity. cbn [trailing_kw].
@@ -2476,37 +2362,36 @@ Lemma grammar_tokens :
 Proof.
   apply rgrammar_ind; unfold G.
   - (* expr = term *)
-    intros e r _ IH Hl. destruct (IH Hl) as (its & tk & H1 & H2 & H3 & H4 & H5 & H6 & H7).
+    intros e r _ IH Hl. destruct (IH Hl) as (its & tk & H1 & H2 & H4 & H5 & H6 & H7).
     exists its, tk. repeat split; auto. apply D_t2e. exact H7.
   - (* or *)
     intros a b ra w1 w2 rb _ IHa Hs1 Hs2 _ IHb Hl.
-    destruct (IHa ltac:(intros; apply Hl; cbn; apply in_or_app; auto)) as (ia & tka & A1 & A2 & A3 & A4 & A5 & A6 & A7).
-    destruct (IHb ltac:(intros; apply Hl; cbn; apply in_or_app; auto)) as (ib & tkb & B1 & B2 & B3 & B4 & B5 & B6 & B7).
-    destruct (G_binop KW_OR TOR ia ib tka tkb w1 w2 ltac:(right; auto) Hs1 Hs2 A2 A3 A6 B2 B3 B4 B5 B6)
-      as (C1 & C2 & C3 & C4 & C5 & C6).
+    destruct (IHa ltac:(intros; apply Hl; cbn; apply in_or_app; auto)) as (ia & tka & A1 & A2 & A4 & A5 & A6 & A7).
+    destruct (IHb ltac:(intros; apply Hl; cbn; apply in_or_app; auto)) as (ib & tkb & B1 & B2 & B4 & B5 & B6 & B7).
+    destruct (G_binop KW_OR TOR ia ib tka tkb w1 w2 ltac:(right; auto) Hs1 Hs2 A2 A6 B2 B4 B5 B6)
+      as (C1 & C2 & C4 & C5 & C6).
     eexists; exists (tka ++ TOR :: tkb). repeat split; eauto.
     + rewrite C1, A1, B1. reflexivity.
     + apply D_or; auto.
-  - intros e r _ IH Hl. destruct (IH Hl) as (its & tk & H1 & H2 & H3 & H4 & H5 & H6 & H7).
+  - intros e r _ IH Hl. destruct (IH Hl) as (its & tk & H1 & H2 & H4 & H5 & H6 & H7).
     exists its, tk. repeat split; auto. apply D_f2t. exact H7.
   - (* and *)
     intros a b ra w1 w2 rb _ IHa Hs1 Hs2 _ IHb Hl.
-    destruct (IHa ltac:(intros; apply Hl; cbn; apply in_or_app; auto)) as (ia & tka & A1 & A2 & A3 & A4 & A5 & A6 & A7).
-    destruct (IHb ltac:(intros; apply Hl; cbn; apply in_or_app; auto)) as (ib & tkb & B1 & B2 & B3 & B4 & B5 & B6 & B7).
-    destruct (G_binop KW_AND TAND ia ib tka tkb w1 w2 ltac:(left; auto) Hs1 Hs2 A2 A3 A6 B2 B3 B4 B5 B6)
-      as (C1 & C2 & C3 & C4 & C5 & C6).
+    destruct (IHa ltac:(intros; apply Hl; cbn; apply in_or_app; auto)) as (ia & tka & A1 & A2 & A4 & A5 & A6 & A7).
+    destruct (IHb ltac:(intros; apply Hl; cbn; apply in_or_app; auto)) as (ib & tkb & B1 & B2 & B4 & B5 & B6 & B7).
+    destruct (G_binop KW_AND TAND ia ib tka tkb w1 w2 ltac:(left; auto) Hs1 Hs2 A2 A6 B2 B4 B5 B6)
+      as (C1 & C2 & C4 & C5 & C6).
     eexists; exists (tka ++ TAND :: tkb). repeat split; eauto.
     + rewrite C1, A1, B1. reflexivity.
     + apply D_and; auto.
   - (* not *)
-    intros e w r Hs _ IH Hl. destruct (IH Hl) as (its & tk & H1 & H2 & H3 & H4 & H5 & H6 & H7).
+    intros e w r Hs _ IH Hl. destruct (IH Hl) as (its & tk & H1 & H2 & H4 & H5 & H6 & H7).
     destruct (sep_cons _ Hs) as (c & v & -> & Hc & Hv).
     exists (IW KW_NOT :: sps (c :: v) ++ its), (TNOT :: tk).
-    refine (conj _ (conj _ (conj _ (conj _ (conj _ (conj _ _)))))).
+    refine (conj _ (conj _ (conj _ (conj _ (conj _ _))))).
     + cbn [flatten flat_map item_bytes]. fold (flatten (sps (c :: v) ++ its)). rewrite flatten_sps, H1. reflexivity.
     + cbn [sps map app normal].
       refine (conj (kw_item_ok KW_NOT (or_introl eq_refl)) (conj I (conj Hc (conj I _)))). apply normal_sps; auto.
-    + cbn [sps map app sepn]. refine (conj I (conj I _)). apply sepn_sps; auto.
     + reflexivity.
     + cbn [trailing_kw]. rewrite (all_sp_app_r (sps (c :: v)) its H4), andb_false_r.
       rewrite trailing_kw_app by exact H4. exact H5.
@@ -2514,21 +2399,17 @@ Proof.
       rewrite toksc_sps, H6. reflexivity.
     + apply D_not. exact H7.
   - (* parentheses *)
-    intros e w1 w2 r Hw1 Hw2 _ IH Hl. destruct (IH Hl) as (its & tk & H1 & H2 & H3 & H4 & H5 & H6 & H7).
+    intros e w1 w2 r Hw1 Hw2 _ IH Hl. destruct (IH Hl) as (its & tk & H1 & H2 & H4 & H5 & H6 & H7).
     exists (ILP :: sps w1 ++ its ++ sps w2 ++ [IRP]), (TLP :: tk ++ [TRP]).
     assert (Hn : normal (its ++ sps w2 ++ [IRP])).
     { destruct w2 as [|c2 v2]; [apply normal_app_rp; exact H2|].
       unfold is_optsep in Hw2. cbn [forallb] in Hw2. apply andb_true_iff in Hw2. destruct Hw2 as [Hc2 Hv2].
       cbn [sps map app]. apply normal_app_sp; auto. cbn [normal]. refine (conj Hc2 (conj I _)).
       apply normal_sps; cbn; auto. }
-    assert (Hs : sepn (its ++ sps w2 ++ [IRP])).
-    { destruct w2 as [|c2 v2]; [apply sepn_app_rp; exact H3|].
-      cbn [sps map app]. apply sepn_app_sp; auto. cbn [sepn]. refine (conj I _). apply sepn_sps; cbn; auto. }
-    refine (conj _ (conj _ (conj _ (conj _ (conj _ (conj _ _)))))).
+    refine (conj _ (conj _ (conj _ (conj _ (conj _ _))))).
     + cbn [flatten flat_map item_bytes]. fold (flatten (sps w1 ++ its ++ sps w2 ++ [IRP])).
       rewrite flatten_sps, flatten_app, flatten_sps, H1. cbn. reflexivity.
     + cbn [normal]. refine (conj I (conj I _)). apply normal_sps; auto.
-    + cbn [sepn]. refine (conj I _). apply sepn_sps; auto.
     + reflexivity.
     + cbn [trailing_kw].
       rewrite (trailing_kw_app (sps w1)) by (apply all_sp_app_r, all_sp_app_r; reflexivity).
@@ -2546,10 +2427,9 @@ Proof.
       destruct (beq_bytes x KW_AND) eqn:B2; [apply beq_bytes_eq in B2; congruence|].
       destruct (beq_bytes x KW_OR) eqn:B3; [apply beq_bytes_eq in B3; congruence|]. reflexivity. }
     exists [IW x], [TF x].
-    refine (conj _ (conj _ (conj _ (conj _ (conj _ (conj _ _)))))).
+    refine (conj _ (conj _ (conj _ (conj _ (conj _ _))))).
     + cbn. apply app_nil_r.
     + cbn [normal item_ok]. auto.
-    + cbn. auto.
     + reflexivity.
     + cbn [trailing_kw]. rewrite Hnk. reflexivity.
     + intro nxt. cbn [toksc]. rewrite not_kw_classify by exact Hnk. reflexivity.
@@ -2563,21 +2443,20 @@ Proof. destruct e; cbn; lia. Qed.
 Lemma feats_pos e : (1 <= length (feats e))%nat.
 Proof. induction e; cbn; rewrite ?app_length; lia. Qed.
 
-(* iffeature_correct, for the renderings on which the pre-pass cancels only adjacent nots *)
+(* iffeature_correct: every string of the RFC 7950 grammar whose features resolve compiles, and the
+   compiled expression evaluates to the denotation of the parse tree *)
 Theorem compile_grammar lookup e r :
-  rexpr e r -> (forall x, In x (feats e) -> lookup x = Some x) ->
-  not_cancel_adjacent r = true -> Bnd r ->
+  rexpr e r -> (forall x, In x (feats e) -> lookup x = Some x) -> Bnd r ->
   exists c, compile lookup true r = IOk c /\ forall env, iff_value c env = IOk (denote env e).
 Proof.
-  intros Hr Hl Hnot Hb. unfold len_ok in Hb.
-  destruct (proj1 (grammar_tokens lookup) e r Hr Hl) as (its & tk & Hfl & Hnorm & Hsepn & Hall & Htr & Htk & Hder).
+  intros Hr Hl Hb. unfold len_ok in Hb.
+  destruct (proj1 (grammar_tokens lookup) e r Hr Hl) as (its & tk & Hfl & Hnorm & Hall & Htr & Htk & Hder).
   assert (Hit : items r = its) by (rewrite <- Hfl; apply items_flatten_inv; exact Hnorm).
   assert (Hnz : Forall (fun c => c <> 0) r) by (rewrite <- Hfl; apply flatten_nonzero; exact Hnorm).
   assert (HT : toks its = tk) by (rewrite toks_toksc; apply Htk).
-  unfold not_cancel_adjacent in Hnot. rewrite Hit, HT in Hnot.
   pose proof (items_length r) as Hil. rewrite Hit in Hil.
-  destruct (der_SY lookup 2 e tk Hder) as (pend & e' & S1 & _ & _ & S4 & S5 & S6).
-  destruct (S6 z0 eq_refl Hnot) as (z' & Hz & Zj & Zl & Zf & Zx & Ze). cbn [z0 z_j z_f z_e z_ln andb] in Zj, Zf, Ze.
+  destruct (der_SY lookup 2 e tk Hder) as (pend & e' & S1 & _ & S4 & S5 & S6).
+  destruct (S6 z0 eq_refl ltac:(cbn; lia)) as (z' & Hz & Zj & Zl & Zf & Zx & Ze). cbn [z0 z_j z_f z_e z_ln andb] in Zj, Zf, Ze.
   unfold compile. rewrite (pre_loop_string r Hnz). rewrite Hit.
   assert (HR0 : Rz pa0 z0) by (repeat split).
   assert (HW0 : WFz z0 (length its)).
@@ -2604,7 +2483,7 @@ Proof.
   assert (HFzu : (Z.of_nat Fsz < ZU)%Z) by (unfold ZU; lia).
   pose proof (init_Rm E Fsz B ltac:(unfold B; lia) HEzu HFzu HE1 HF1) as HR.
   pose proof (main_loop_items E Fsz B lookup HEzu HFzu HBz its [] _ ast0 (S (S (length r))) (S (S (length r)))
-                ltac:(rewrite app_nil_r; exact Hnorm) ltac:(rewrite app_nil_r; exact Hsepn) HR) as Hmain.
+                ltac:(rewrite app_nil_r; exact Hnorm) HR) as Hmain.
   cbn [flatten flat_map next_is_sp] in Hmain. rewrite !app_nil_r in Hmain. rewrite Hfl in Hmain.
   rewrite <- toks_toksc, HT in Hmain.
   specialize (Hmain ltac:(lia) ltac:(lia) ltac:(cbn; unfold B; lia) ltac:(cbn; lia)).
@@ -2646,20 +2525,11 @@ Proof.
   - fold E. unfold U64. unfold ZU in HEzu. lia.
 Qed.
 
-(* ---------- the refutations: three inputs on which the faithful model leaves its arrays ---------- *)
+(* ---------- regression: the four inputs on which the code before the fixes left its arrays ---------- *)
 Definition w_not_paren : bytes := [110;111;116;32;40;110;111;116;32;97;41].      (* not (not a) *)
 Definition w_neg_depth : bytes := [41;97;40].                                     (* )a( *)
 Definition w_neg_depth2 : bytes := [97;32;41;40].                                 (* a )( *)
 Definition w_rp_word : bytes := [40;41;110;111;116;32;110;111;116;32;98].         (* ()not not b *)
-
-Lemma oob_not_paren : compile lookup_abc true w_not_paren = IOob.
-Proof. vm_compute. reflexivity. Qed.
-Lemma oob_neg_depth : compile lookup_abc true w_neg_depth = IOob.
-Proof. vm_compute. reflexivity. Qed.
-Lemma oob_neg_depth2 : compile lookup_abc true w_neg_depth2 = IOob.
-Proof. vm_compute. reflexivity. Qed.
-Lemma oob_rp_word : compile lookup_abc true w_rp_word = IOob.
-Proof. vm_compute. reflexivity. Qed.
 
 Lemma name_ok_a : name_ok [97].
 Proof. unfold name_ok. repeat split; try discriminate. Qed.
@@ -2673,14 +2543,6 @@ Proof.
     + split; [discriminate|reflexivity].
     + apply RF_id. exact name_ok_a.
 Qed.
-
-(* each of the three side conditions alone is violated by one of the witnesses *)
-Lemma witnesses_conditions :
-  (depth_nonneg w_not_paren 0, not_cancel_adjacent w_not_paren, rp_sep w_not_paren) = (true, false, true) /\
-  (depth_nonneg w_neg_depth 0, not_cancel_adjacent w_neg_depth, rp_sep w_neg_depth) = (false, true, false) /\
-  (depth_nonneg w_neg_depth2 0, not_cancel_adjacent w_neg_depth2, rp_sep w_neg_depth2) = (false, true, true) /\
-  (depth_nonneg w_rp_word 0, not_cancel_adjacent w_rp_word, rp_sep w_rp_word) = (true, true, false).
-Proof. vm_compute. repeat split. Qed.
 
 (* ================= K. the two renderers are in the grammar; C strings ================= *)
 Lemma rfactor_paren e r s : rexpr e r -> s = [40] ++ r ++ [41] -> rfactor e s.
@@ -2739,11 +2601,10 @@ Lemma render_min_rexpr e : names_ok e -> rexpr e (render_min 2 e).
 Proof. intro H. apply render_min_all, H. Qed.
 
 (* the compiler on an arbitrary byte string (read as a C string) *)
-Theorem compile_c_no_oob_partial lookup v11 s :
+Theorem compile_c_no_oob lookup v11 s :
   len_ok (cstr s) ->
-  depth_nonneg (cstr s) 0 = true -> not_cancel_adjacent (cstr s) = true -> rp_sep (cstr s) = true ->
   compile_c lookup v11 s <> IOob /\ compile_c lookup v11 s <> IErr E_FUEL /\ compile_c lookup v11 s <> IErr E_MEM.
-Proof. intros. unfold compile_c. apply compile_no_oob_partial; auto. apply cstr_nonzero. Qed.
+Proof. intros. unfold compile_c. apply compile_no_oob; auto. apply cstr_nonzero. Qed.
 
 Lemma eval_prefix_correct' e env cnt :
   N.of_nat (length (pre e)) < U64 ->
